@@ -18,8 +18,8 @@
    of X repeated d times, IndicatorGroupL1UnitBall(exponent 2) and Huber on X^d likewise;
    IndicatorSumConstraint on a uniformly weighted space.  The KL family has its own
    theorems below (its values involve ln).                                                              *)
-From Coq Require Import Reals Lra Lia List Bool.
-From Verif Require Import Base.Num Base.Vec Base.VecR C07.Model C07.Convex C07.Leaves C07.LeafThms C07.Rules C07.L2 C07.Compose C07.Sorting C07.KL C07.Group C07.Proofs C07.Sound C07.Refuted.
+From Coq Require Import Reals Lra Lia String List Bool.
+From Verif Require Import Base.Num Base.Vec Base.VecR C07.Model C07.Convex C07.Leaves C07.LeafThms C07.Rules C07.L2 C07.Compose C07.Sorting C07.KL C07.Group C07.Proofs C07.Sound C07.Refuted C07.BindSyntax Gen.ProxBindings C07.Bindings.
 Import ListNotations.
 Local Open Scope R_scope.
 
@@ -406,6 +406,68 @@ Theorem indicator_simplex_nonuniform_weights_refuted :
           (prox_obj (leaf_val (FSimplex d) w) (metric w (repeat sigma (length w))) x z).
 Proof. exact simplex_nonuniform_weights_refuted. Qed.
 Print Assumptions indicator_simplex_nonuniform_weights_refuted.
+
+(* ===== Tie to the CURRENT source by regeneration (translate/prox_bindings.py -> Gen/ProxBindings.v) =====
+   The `proximal` properties of default_functionals.py / functional.py and the rule factories of
+   proximal_operators.py are re-read from /repo on every run; these theorems say that the hand model IS what the
+   regenerated fragments denote, for every carrier (in particular Q and R, where of_Z 1 = none_ by reflexivity).
+   Rebinding a class to another factory, swapping arguments, or editing a rule's operator expression breaks them. *)
+Theorem source_bindings_denote_model : forall (T : Type) (H : Num T) (NS : NumS T) (k : @leaf T) w s x,
+  leaf_prox_gen k w s x = leaf_prox k w s x.
+Proof. exact @leaf_prox_gen_eq. Qed.
+Print Assumptions source_bindings_denote_model.
+Theorem source_translation_denotes_model : forall (T : Type) (H : Num T) (NS : NumS T) pf y sg x,
+  rule_factory rule_proximal_translation (upd (upd base_env "prox_factory" (VFac pf)) "y" (VVec y)) (SScal sg) x
+  = prox_translation pf y (SScal sg) x.
+Proof. exact @translation_expr_eq. Qed.
+Print Assumptions source_translation_denotes_model.
+Theorem source_arg_scaling_denotes_model : forall (T : Type) (H : Num T) (NS : NumS T), of_Z 1 = none_ ->
+  forall pf c sg x, neqb c nzero = false ->
+  rule_factory rule_proximal_arg_scaling (upd (upd base_env "prox_factory" (VFac pf)) "scaling" (VNum c)) (SScal sg) x
+  = prox_arg_scaling pf c (SScal sg) x.
+Proof. exact @arg_scaling_expr_eq. Qed.
+Print Assumptions source_arg_scaling_denotes_model.
+Theorem source_convex_conj_denotes_model : forall (T : Type) (H : Num T) (NS : NumS T), of_Z 1 = none_ ->
+  forall pf sg x,
+  rule_factory rule_proximal_convex_conj (upd base_env "prox_factory" (VFac pf)) (SScal sg) x
+  = prox_convex_conj pf (SScal sg) x.
+Proof. exact @convex_conj_expr_eq. Qed.
+Print Assumptions source_convex_conj_denotes_model.
+Theorem source_quadratic_perturbation_denotes_model : forall (T : Type) (H : Num T) (NS : NumS T), of_Z 1 = none_ ->
+  forall pf a u sg x, nltb a nzero = false ->
+  rule_factory rule_proximal_quadratic_perturbation
+     (upd (upd (upd base_env "prox_factory" (VFac pf)) "a" (VNum a)) "u" (match u with Some v => VVec v | None => VNone end))
+     (SScal sg) x
+  = prox_quad_pert pf a u (SScal sg) x.
+Proof. exact @quadratic_perturbation_expr_eq. Qed.
+Print Assumptions source_quadratic_perturbation_denotes_model.
+Theorem source_composition_denotes_model : forall (T : Type) (H : Num T) (NS : NumS T), of_Z 1 = none_ ->
+  forall pf n A mu sg x,
+  rule_factory rule_proximal_composition
+     (upd (upd (upd base_env "proximal" (VFac pf)) "operator" (VMat n A false)) "mu" (VNum mu)) (SScal sg) x
+  = prox_composition pf n A mu (SScal sg) x.
+Proof. exact @composition_expr_eq. Qed.
+Print Assumptions source_composition_denotes_model.
+Theorem source_left_scalar_wiring_denotes_model : forall (T : Type) (H : Num T) (NS : NumS T) (e : @fexpr T) c,
+  fprox (LScal c e) = left_scalar_gen (fprox e) c.
+Proof. exact @wiring_left_scalar_mult. Qed.
+Print Assumptions source_left_scalar_wiring_denotes_model.
+Theorem source_wiring_of_derived_functionals :
+  wire_FunctionalRightScalarMult = BRet (PCall "proximal_arg_scaling" [PAttr "self.functional.proximal"; PAttr "self.scalar"])
+  /\ wire_FunctionalTranslation = BRet (PCall "proximal_translation" [PAttr "self.functional.proximal"; PAttr "self.translation"])
+  /\ wire_FunctionalScalarSum = BRet (PAttr "self.left.proximal")
+  /\ wire_FunctionalDefaultConvexConjugate = BRet (PCall "proximal_convex_conj" [PAttr "self.convex_conj.proximal"])
+  /\ wire_BregmanDistance = BRet (PAttr "self.__bregman_dist.proximal")
+  /\ wire_FunctionalQuadraticPerturb =
+       BIfSeq (CCmp "self.quadratic_coeff" "<" (NInt 0)) (BRaise "TypeError") BEnd
+         (BRet (PCall "proximal_quadratic_perturbation"
+                  [PAttr "self.functional.proximal"; PKw "a" (PAttr "self.quadratic_coeff"); PKw "u" (PAttr "self.linear_term")]))
+  /\ bind_SeparableSum = BLet "proximals" (PComp (PAttr "func.proximal") "func" (PAttr "self.functionals"))
+                           (BRet (PCall "combine_proximals" [PStar "proximals"])).
+Proof. repeat split; reflexivity. Qed.
+Print Assumptions source_wiring_of_derived_functionals.
+Example carriers_satisfy_one : @of_Z R _ 1%Z = none_ /\ @of_Z QArith_base.Q _ 1%Z = none_.
+Proof. split; reflexivity. Qed.
 
 (* non-vacuity: a weighted, translated, scaled, perturbed separable tree is well-formed *)
 Example wf_example :
